@@ -104,9 +104,34 @@ theorem mem_rawCands {E : Env} {p : Id × Id} (h : p ∈ rawCands E) :
   simp at hc
   exact ⟨hs, ht, hc.1, hc.2⟩
 
+theorem mem_insertCand (c x : Cand) (l : List Cand) : x ∈ insertCand c l ↔ x = c ∨ x ∈ l := by
+  induction l with
+  | nil => simp [insertCand]
+  | cons d ds ih =>
+    simp only [insertCand]
+    split
+    · simp
+    · simp only [List.mem_cons, ih]
+      constructor
+      · rintro (h | h | h)
+        · exact Or.inr (Or.inl h)
+        · exact Or.inl h
+        · exact Or.inr (Or.inr h)
+      · rintro (h | h | h)
+        · exact Or.inr (Or.inl h)
+        · exact Or.inl h
+        · exact Or.inr (Or.inr h)
+
+@[simp] theorem mem_sortCands (x : Cand) (l : List Cand) : x ∈ sortCands l ↔ x ∈ l := by
+  induction l with
+  | nil => simp [sortCands]
+  | cons c l ih =>
+    have : sortCands (c :: l) = insertCand c (sortCands l) := rfl
+    rw [this, mem_insertCand, ih]; simp
+
 theorem mem_popOrder {E : Env} {c : Cand} (h : c ∈ popOrder E) :
     (c.s, c.t) ∈ rawCands E ∧ c.score = E.dice c.s c.t ∧ c.psim = E.psim c.s c.t := by
-  simp only [popOrder, List.mem_mergeSort, cands] at h
+  simp only [popOrder, mem_sortCands, cands] at h
   obtain ⟨h1, h2, h3, _⟩ := enumFrom_mem E 0 _ c h
   exact ⟨h1, h2, h3⟩
 
@@ -205,7 +230,7 @@ theorem matchAll_count_src (E : Env) (pre : List (Id × Id)) (hN : E.srcIndex.No
     (matchAll E pre).unmatchedS.count n + (fsts (matchAll E pre).all).count n = E.srcIndex.count n := by
   have hl := greedy_count_src (popOrder E)
     ⟨unmatched0 E.srcIndex (pre.map (·.1)), unmatched0 E.tgtIndex (pre.map (·.2)), []⟩ n
-  have hi := innerLoop_count_src (innerCond E (leafPass E pre).acc) (leafPass E pre).us
+  have hi := innerLoop_count_src (innerCond E (innerLm E pre (leafPass E pre).acc)) (leafPass E pre).us
     ⟨(leafPass E pre).us, (leafPass E pre).ut, []⟩ (fun s hs => hs) (leafPass_us_nodup E pre hN) n
   have h0 := unmatched0_count E.srcIndex (fsts pre) hN hp.srcNodup hp.srcIn n
   simp only [matchAll, fsts_append, List.count_append]
@@ -217,7 +242,7 @@ theorem matchAll_count_tgt (E : Env) (pre : List (Id × Id)) (hN : E.tgtIndex.No
     (matchAll E pre).unmatchedT.count n + (snds (matchAll E pre).all).count n = E.tgtIndex.count n := by
   have hl := greedy_count_tgt (popOrder E)
     ⟨unmatched0 E.srcIndex (pre.map (·.1)), unmatched0 E.tgtIndex (pre.map (·.2)), []⟩ n
-  have hi := innerLoop_count_tgt (innerCond E (leafPass E pre).acc) (leafPass E pre).us
+  have hi := innerLoop_count_tgt (innerCond E (innerLm E pre (leafPass E pre).acc)) (leafPass E pre).us
     ⟨(leafPass E pre).us, (leafPass E pre).ut, []⟩ n
   have h0 := unmatched0_count E.tgtIndex (snds pre) hN hp.tgtNodup hp.tgtIn n
   simp only [matchAll, snds_append, List.count_append]
@@ -340,9 +365,40 @@ theorem before_total (a b : Cand) : (a.before b || b.before a) = true := by
   simp only [Cand.before, Bool.or_eq_true, Bool.and_eq_true, decide_eq_true_eq, beq_iff_eq]
   omega
 
+theorem pairwise_insertCand (c : Cand) (l : List Cand) (h : l.Pairwise (fun a b => a.before b = true)) :
+    (insertCand c l).Pairwise (fun a b => a.before b = true) := by
+  induction l with
+  | nil => simp [insertCand]
+  | cons d ds ih =>
+    have hp := List.pairwise_cons.mp h
+    simp only [insertCand]
+    split
+    · rename_i hcd
+      refine List.pairwise_cons.mpr ⟨?_, h⟩
+      intro x hx
+      simp only [List.mem_cons] at hx
+      rcases hx with rfl | hx
+      · exact hcd
+      · exact before_trans _ _ _ hcd (hp.1 x hx)
+    · rename_i hcd
+      have hdc : d.before c = true := by
+        have := before_total c d
+        simp only [Bool.or_eq_true] at this
+        rcases this with h1 | h1
+        · exact absurd h1 hcd
+        · exact h1
+      refine List.pairwise_cons.mpr ⟨?_, ih hp.2⟩
+      intro x hx
+      rcases (mem_insertCand c x ds).mp hx with rfl | hx
+      · exact hdc
+      · exact hp.1 x hx
+
 theorem popOrder_sorted (E : Env) : (popOrder E).Pairwise (fun a b => a.before b = true) := by
-  have := List.pairwise_mergeSort (le := Cand.before) before_trans before_total (cands E)
-  simpa [popOrder] using this
+  unfold popOrder
+  generalize cands E = l
+  induction l with
+  | nil => simp [sortCands]
+  | cons c l ih => exact pairwise_insertCand c _ ih
 
 theorem two_mem_order {l : List Id} (hN : l.Nodup) {a b : Id} (ha : a ∈ l) (hb : b ∈ l) (hab : a ≠ b) :
     [a, b] <+ l ∨ [b, a] <+ l := by
@@ -648,5 +704,713 @@ theorem innerLoop_copy (cond : Id → Id → Bool) (φ : Id → Id) (os : List I
       rcases hp with hp | rfl
       · exact J1 p hp
       · rfl
+
+/-! ### `_lcs` is a longest common subsequence -/
+
+/-- two lists of the same length related elementwise by `eq` -/
+inductive Aligned (eq : Id → Id → Bool) : List Id → List Id → Prop
+  | nil : Aligned eq [] []
+  | cons {a b l l'} : eq a b = true → Aligned eq l l' → Aligned eq (a :: l) (b :: l')
+
+theorem Aligned.length_eq {eq l l'} (h : Aligned eq l l') : l.length = l'.length := by
+  induction h with
+  | nil => rfl
+  | cons _ _ ih => simp [ih]
+
+theorem Aligned.append {eq a a' b b'} (h1 : Aligned eq a a') (h2 : Aligned eq b b') : Aligned eq (a ++ b) (a' ++ b') := by
+  induction h1 with
+  | nil => simpa using h2
+  | cons h _ ih => exact Aligned.cons h ih
+
+theorem Aligned.reverse {eq l l'} (h : Aligned eq l l') : Aligned eq l.reverse l'.reverse := by
+  induction h with
+  | nil => exact Aligned.nil
+  | cons h _ ih =>
+    simp only [List.reverse_cons]
+    exact ih.append (Aligned.cons h Aligned.nil)
+
+theorem lcsRows_tail (eq : Id → Id → Bool) (xs : List Id) (y : Id) (ys : List Id) :
+    (lcsRows eq xs (y :: ys)).tail = lcsRows eq xs ys := by
+  induction xs with
+  | nil => simp [lcsRows, List.replicate_succ]
+  | cons x xs ih => simp only [lcsRows, lcsStep, List.tail_cons, ih]
+
+theorem lcsS_nil_left (eq : Id → Id → Bool) (ys : List Id) : lcsS eq [] ys = [] := by
+  simp [lcsS, lcsRows, List.replicate_succ]
+
+theorem lcsS_nil_right (eq : Id → Id → Bool) (xs : List Id) : lcsS eq xs [] = [] := by
+  cases xs with
+  | nil => exact lcsS_nil_left eq []
+  | cons x xs => simp [lcsS, lcsRows, lcsStep]
+
+/-- the recurrence of diff.py's table, on suffixes -/
+theorem lcsS_cons (eq : Id → Id → Bool) (x : Id) (xs : List Id) (y : Id) (ys : List Id) :
+    lcsS eq (x :: xs) (y :: ys) =
+      if eq x y then x :: lcsS eq xs ys
+      else if (lcsS eq xs (y :: ys)).length > (lcsS eq (x :: xs) ys).length then lcsS eq xs (y :: ys)
+      else lcsS eq (x :: xs) ys := by
+  simp only [lcsS, lcsRows, lcsStep, List.headD_cons, lcsRows_tail]
+  rfl
+
+/-- **the result is a common subsequence**: a subsequence of the first list that is aligned (`equal` holds
+    elementwise) with a subsequence of the second -/
+theorem lcsS_common (eq : Id → Id → Bool) (xs ys : List Id) :
+    lcsS eq xs ys <+ xs ∧ ∃ ys', ys' <+ ys ∧ Aligned eq (lcsS eq xs ys) ys' := by
+  induction xs generalizing ys with
+  | nil => rw [lcsS_nil_left]; exact ⟨List.Sublist.refl _, [], List.nil_sublist _, Aligned.nil⟩
+  | cons x xs ihx =>
+    induction ys with
+    | nil => rw [lcsS_nil_right]; exact ⟨List.nil_sublist _, [], List.nil_sublist _, Aligned.nil⟩
+    | cons y ys ihy =>
+      rw [lcsS_cons]
+      split
+      · rename_i h
+        obtain ⟨h1, ys', h2, h3⟩ := ihx ys
+        exact ⟨h1.cons_cons x, y :: ys', h2.cons_cons y, Aligned.cons h h3⟩
+      · split
+        · obtain ⟨h1, ys', h2, h3⟩ := ihx (y :: ys)
+          exact ⟨h1.cons x, ys', h2, h3⟩
+        · obtain ⟨h1, ys', h2, h3⟩ := ihy
+          exact ⟨h1, ys', h2.cons y, h3⟩
+
+theorem sublist_tail_of_cons {a : Id} {l l0 : List Id} (h : a :: l <+ l0) : l <+ l0 :=
+  (List.sublist_cons_self a l).trans h
+
+/-- **and a longest one**: no common subsequence is longer -/
+theorem lcsS_maximal (eq : Id → Id → Bool) (xs ys : List Id) :
+    ∀ l l', l <+ xs → l' <+ ys → Aligned eq l l' → l.length ≤ (lcsS eq xs ys).length := by
+  induction xs generalizing ys with
+  | nil =>
+    intro l l' h1 _ _
+    have : l = [] := List.sublist_nil.mp h1
+    simp [this]
+  | cons x xs ihx =>
+    induction ys with
+    | nil =>
+      intro l l' _ h2 h3
+      have : l' = [] := List.sublist_nil.mp h2
+      subst this
+      cases h3
+      simp
+    | cons y ys ihy =>
+      intro l l' h1 h2 h3
+      rw [lcsS_cons]
+      -- how the two subsequences sit in `x :: xs` and `y :: ys`
+      have key : l <+ xs ∨ l' <+ ys ∨ (∃ l1 l1', l = x :: l1 ∧ l' = y :: l1' ∧ l1 <+ xs ∧ l1' <+ ys) := by
+        cases h1 with
+        | cons _ h1' => exact Or.inl h1'
+        | cons_cons _ h1' =>
+          cases h2 with
+          | cons _ h2' => exact Or.inr (Or.inl h2')
+          | cons_cons _ h2' => exact Or.inr (Or.inr ⟨_, _, rfl, rfl, h1', h2'⟩)
+      have up := ihx (y :: ys)
+      have left := ihy
+      have diag := ihx ys
+      split
+      · -- equal heads: 1 + L(xs, ys)
+        rename_i he
+        cases h3 with
+        | nil => simp
+        | cons hab h3' =>
+          rename_i a b l1 l1'
+          have s1 : l1 <+ xs := by
+            rcases key with k | k | ⟨_, _, e1, _, k, _⟩
+            · exact sublist_tail_of_cons k
+            · cases h1 with
+              | cons _ h1' => exact sublist_tail_of_cons h1'
+              | cons_cons _ h1' => exact h1'
+            · cases e1; exact k
+          have s2 : l1' <+ ys := by
+            cases h2 with
+            | cons _ h2' => exact sublist_tail_of_cons h2'
+            | cons_cons _ h2' => exact h2'
+          have := diag l1 l1' s1 s2 h3'
+          simp only [List.length_cons]
+          omega
+      · rename_i hne
+        have bound : l.length ≤ (lcsS eq xs (y :: ys)).length ∨ l.length ≤ (lcsS eq (x :: xs) ys).length := by
+          rcases key with k | k | ⟨l1, l1', e1, e2, _, _⟩
+          · exact Or.inl (up l l' k h2 h3)
+          · exact Or.inr (left l l' h1 k h3)
+          · subst e1; subst e2
+            cases h3 with
+            | cons hab _ => exact absurd hab hne
+        split <;> omega
+
+/-- transfer to `_lcs` itself (the sequences as the code passes them) -/
+theorem lcs_is_common_subseq (eq : Id → Id → Bool) (as bs : List Id) :
+    lcs eq as bs <+ as ∧ ∃ bs', bs' <+ bs ∧ Aligned eq (lcs eq as bs) bs' := by
+  obtain ⟨h1, ys', h2, h3⟩ := lcsS_common eq as.reverse bs.reverse
+  refine ⟨by simpa [lcs] using h1.reverse, ys'.reverse, by simpa using h2.reverse, by simpa [lcs] using h3.reverse⟩
+
+theorem lcs_maximal (eq : Id → Id → Bool) (as bs : List Id) (l l' : List Id)
+    (h1 : l <+ as) (h2 : l' <+ bs) (h3 : Aligned eq l l') : l.length ≤ (lcs eq as bs).length := by
+  have := lcsS_maximal eq as.reverse bs.reverse l.reverse l'.reverse h1.reverse h2.reverse h3.reverse
+  simpa [lcs] using this
+
+/-- `_generate_move_edits`: a child of the source node gets a Move exactly when it is matched (not in
+    `_unmatched_source_nodes`) and is not part of the longest common subsequence of the two child lists under the
+    matching; the Move's target is what the matching says -/
+theorem move_iff_not_in_lcs (S T : Tree) (m : List (Id × Id)) (u : List Id) (s t a : Id) (b : Option Id) :
+    (a, b) ∈ moveEdits S T m u s t ↔
+      a ∈ S.exprArgs s ∧ a ∉ lcs (fun l r => lookup m l == some r) (S.exprArgs s) (T.exprArgs t) ∧ a ∉ u ∧
+        b = lookup m a := by
+  simp only [moveEdits, List.mem_flatMap]
+  constructor
+  · rintro ⟨x, hx, h⟩
+    split at h
+    · rename_i hc
+      simp only [List.mem_singleton, Prod.mk.injEq] at h
+      obtain ⟨rfl, rfl⟩ := h
+      simp only [Bool.and_eq_true, Bool.not_eq_true', List.contains_eq_mem, decide_eq_false_iff_not] at hc
+      exact ⟨hx, hc.1, hc.2, rfl⟩
+    · simp at h
+  · rintro ⟨hx, h1, h2, rfl⟩
+    refine ⟨a, hx, ?_⟩
+    have : (!(lcs (fun l r => lookup m l == some r) (S.exprArgs s) (T.exprArgs t)).contains a && !u.contains a) = true := by
+      simp [h1, h2]
+    rw [if_pos this]; simp
+
+/-! ### well-formed trees, copies, and the dice axiomatisation: deriving `CopyOk` -/
+
+structure TreeWF (S : Tree) : Prop where
+  bfsNodup : S.bfs.Nodup
+  rootLeavesNodup : (S.leaves S.root).Nodup
+  leavesNodup : ∀ x ∈ S.index, (S.leaves x).Nodup
+  kidsNodup : ∀ x ∈ S.index, (S.exprArgs x).Nodup
+  leavesClosed : ∀ x ∈ S.index, ∀ l ∈ S.leaves x, l ∈ S.leaves S.root ∧ l ∈ S.index
+  kids : ∀ x ∈ S.index, ∀ c ∈ S.exprArgs x,
+    S.parent c = some x ∧ c ∈ S.index ∧ S.bfs.idxOf x < S.bfs.idxOf c
+  parent : ∀ x ∈ S.index, (∃ p, S.parent x = some p ∧ p ∈ S.index ∧ x ∈ S.exprArgs p) ∨ (S.parent x = none ∧ x = S.root)
+  rootParent : S.parent S.root = none
+
+/-- the decidable check the driver runs on every shipped tree implies the propositional form -/
+theorem wf_imp (S : Tree) (h : S.wf = true) : TreeWF S := by
+  simp only [Tree.wf, Tree.wfWith, Bool.and_eq_true, decide_eq_true_eq, List.all_eq_true,
+    List.contains_eq_mem, beq_iff_eq] at h
+  obtain ⟨⟨⟨h1, h2⟩, h4⟩, h3⟩ := h
+  refine ⟨h1, h2, ?_, ?_, ?_, ?_, ?_, h4⟩
+  · intro x hx; exact (h3 x hx).1.1.1.1
+  · intro x hx; exact (h3 x hx).1.1.1.2
+  · intro x hx l hl; exact (h3 x hx).1.1.2 l hl
+  · intro x hx c hc
+    obtain ⟨⟨a, b⟩, c'⟩ := (h3 x hx).1.2 c hc
+    exact ⟨a, b, c'⟩
+  · intro x hx
+    have := (h3 x hx).2
+    cases hp : S.parent x with
+    | none => rw [hp] at this; exact Or.inr ⟨rfl, by simpa using this⟩
+    | some p => rw [hp] at this; exact Or.inl ⟨p, rfl, by simpa using this⟩
+
+/-- `T` is a node-for-node copy of `S` (what `Expr.copy()` produces), `φ` maps a node to its twin -/
+structure IsCopy (S T : Tree) (φ : Id → Id) : Prop where
+  inj : ∀ a b, φ a = φ b → a = b
+  root : T.root = φ S.root
+  size : T.size = S.size
+  kids : ∀ x, T.kids (φ x) = (S.kids x).map φ
+  parent : ∀ x, T.parent (φ x) = (S.parent x).map φ
+  cls : ∀ x, T.cls (φ x) = S.cls x
+  ty : ∀ x, T.ty (φ x) = S.ty x
+  ignored : ∀ x, T.ignored (φ x) = S.ignored x
+  nel : ∀ x, T.nel (φ x) = S.nel x
+  eqc : ∀ x, T.eqc (φ x) = S.eqc x
+  txt : ∀ x, T.txt (φ x) = S.txt x
+
+/-- what the harness validates about the real `_dice_coefficient` on every shipped pair: it never exceeds `top`
+    (the rank of 1.0) and equals it when the two nodes render to the same text -/
+structure DiceOk (S T : Tree) (dice : Id → Id → Nat) (top : Nat) : Prop where
+  le_top : ∀ s t, dice s t ≤ top
+  eq_txt : ∀ s t, S.txt s = T.txt t → dice s t = top
+
+theorem bfsGo_copy {S T : Tree} {φ : Id → Id} (hc : IsCopy S T φ) (fuel : Nat) (q : List Id) :
+    bfsGo T.kids fuel (q.map φ) = (bfsGo S.kids fuel q).map φ := by
+  induction fuel generalizing q with
+  | zero => simp [bfsGo]
+  | succ n ih =>
+    cases q with
+    | nil => simp [bfsGo]
+    | cons x q =>
+      simp only [List.map_cons, bfsGo]
+      rw [hc.kids, ← List.map_append, ih]
+
+theorem index_copy {S T : Tree} {φ : Id → Id} (hc : IsCopy S T φ) : T.index = S.index.map φ := by
+  simp only [Tree.index, Tree.bfs, hc.root, hc.size]
+  have := bfsGo_copy hc S.size [S.root]
+  simp only [List.map_cons, List.map_nil] at this
+  rw [this, List.filter_map]
+  congr 1
+  apply List.filter_congr
+  intro x _
+  simp [hc.ignored]
+
+theorem exprArgs_copy {S T : Tree} {φ : Id → Id} (hc : IsCopy S T φ) (x : Id) :
+    T.exprArgs (φ x) = (S.exprArgs x).map φ := by
+  simp only [Tree.exprArgs, hc.kids, List.filter_map]
+  congr 1
+  apply List.filter_congr
+  intro k _
+  simp [hc.ignored]
+
+theorem leavesGo_copy {S T : Tree} {φ : Id → Id} (hc : IsCopy S T φ) (fuel : Nat) (x : Id) :
+    leavesGo T fuel (φ x) = (leavesGo S fuel x).map φ := by
+  induction fuel generalizing x with
+  | zero => simp [leavesGo]
+  | succ n ih =>
+    simp only [leavesGo, exprArgs_copy hc]
+    cases S.exprArgs x with
+    | nil => simp
+    | cons k ks =>
+      simp only [List.map_cons, List.flatMap_cons, List.map_append, ih]
+      congr 1
+      rw [List.flatMap_map, List.map_flatMap]
+      congr 1
+      funext a
+      exact ih a
+
+theorem leaves_copy {S T : Tree} {φ : Id → Id} (hc : IsCopy S T φ) (x : Id) :
+    T.leaves (φ x) = (S.leaves x).map φ := by
+  simp only [Tree.leaves, hc.size]; exact leavesGo_copy hc _ x
+
+theorem leavesGo_ne_nil (S : Tree) (fuel : Nat) (x : Id) : leavesGo S fuel x ≠ [] := by
+  induction fuel generalizing x with
+  | zero => simp [leavesGo]
+  | succ n ih =>
+    simp only [leavesGo]
+    cases h : S.exprArgs x with
+    | nil => simp
+    | cons k ks =>
+      simp only [List.flatMap_cons]
+      intro hnil
+      exact ih k (List.append_eq_nil_iff.mp hnil).1
+
+theorem psimGo_copy_le {S T : Tree} {φ : Id → Id} (hc : IsCopy S T φ) (fuel : Nat) (oa ob : Option Id) :
+    psimGo S T fuel oa (ob.map φ) ≤ psimGo S T fuel oa (oa.map φ) ∧
+    psimGo S T fuel oa (ob.map φ) ≤ psimGo S T fuel ob (ob.map φ) := by
+  induction fuel generalizing oa ob with
+  | zero => simp [psimGo]
+  | succ n ih =>
+    cases oa with
+    | none => simp [psimGo]
+    | some a =>
+      cases ob with
+      | none => simp [psimGo]
+      | some b =>
+        simp only [Option.map_some, psimGo, hc.cls, hc.parent, beq_self_eq_true, if_true]
+        have := ih (S.parent a) (S.parent b)
+        split <;> omega
+
+theorem nodup_subset_length {α} [DecidableEq α] {l l' : List α} (hN : l.Nodup) (hs : ∀ a ∈ l, a ∈ l') : l.length ≤ l'.length := by
+  induction l generalizing l' with
+  | nil => simp
+  | cons a l ih =>
+    have hN' := List.nodup_cons.mp hN
+    have ha : a ∈ l' := hs a (by simp)
+    have := ih (l' := l'.erase a) hN'.2 (by
+      intro b hb
+      have hne : b ≠ a := fun e => hN'.1 (e ▸ hb)
+      exact (List.mem_erase_of_ne hne).mpr (hs b (by simp [hb])))
+    rw [List.length_erase_of_mem ha] at this
+    have hpos : 0 < l'.length := List.length_pos_of_mem ha
+    simp only [List.length_cons]; omega
+
+theorem lookup_twin {φ : Id → Id} {m : List (Id × Id)} (hm : ∀ p ∈ m, p.2 = φ p.1) {k : Id} (hk : (k, φ k) ∈ m) :
+    lookup m k = some (φ k) := by
+  unfold lookup
+  cases hf : m.find? (fun p => p.1 == k) with
+  | none =>
+    have := List.find?_eq_none.mp hf (k, φ k) hk
+    simp at this
+  | some q =>
+    have h1 : q ∈ m := List.mem_of_find?_eq_some hf
+    have h2 : q.1 = k := by simpa using List.find?_some hf
+    simp [hm q h1, h2]
+
+/-- **`CopyOk` derived**: for a well-formed tree against a copy, the oracle facts follow from the structure of the two
+    trees plus the dice axiomatisation and two facts about the parameters (`f ≤ 1`, high threshold `≤ 1`) -/
+theorem copyOk_of_isCopy (P : Params) (S T : Tree) (dice : Id → Id → Nat) (φ : Id → Id) (top : Nat)
+    (hc : IsCopy S T φ) (hw : TreeWF S) (hd : DiceOk S T dice top) (hf : P.f ≤ top) (hhi : P.hi.1 ≤ P.hi.2) :
+    CopyOk (envOf P S T dice) φ where
+  tgtLeaves := by
+    show T.leaves T.root = (S.leaves S.root).map φ
+    rw [hc.root]; exact leaves_copy hc _
+  tgtIndex := index_copy hc
+  inj := hc.inj
+  srcNodup := hw.bfsNodup.filter _
+  leavesNodup := hw.rootLeavesNodup
+  twinType := by intro x; simp [envOf, hc.ty]
+  diceTop := by
+    intro x s t
+    show dice s t ≤ dice x (φ x)
+    rw [hd.eq_txt x (φ x) (hc.txt x).symm]; exact hd.le_top s t
+  fLe := by
+    intro x
+    show P.f ≤ dice x (φ x)
+    rw [hd.eq_txt x (φ x) (hc.txt x).symm]; exact hf
+  psimTwin := by
+    intro s y
+    have := psimGo_copy_le hc (S.size + 1) (some s) (some y)
+    simpa [envOf, psimOf] using this
+  innerTwin := by
+    intro lm hlm x hx
+    show innerSimOf P S T dice lm x (φ x) = true
+    have hne : (S.leaves x) ≠ [] := leavesGo_ne_nil S _ x
+    have hpos : 0 < (S.leaves x).length := List.length_pos_iff.mpr hne
+    have hcount : (S.leaves x).length ≤
+        (lm.filter fun p => (S.leaves x).contains p.1 && (T.leaves (φ x)).contains p.2).length := by
+      have hnd : ((S.leaves x).map fun l => (l, φ l)).Nodup := by
+        rw [List.Nodup, List.pairwise_map]
+        exact (hw.leavesNodup x hx).imp (fun hab he => hab (by simpa using (Prod.mk.inj he).1))
+      have := nodup_subset_length hnd (l' := lm.filter fun p => (S.leaves x).contains p.1 && (T.leaves (φ x)).contains p.2) (by
+        intro a ha
+        obtain ⟨l, hl, rfl⟩ := List.mem_map.mp ha
+        have hcl := hw.leavesClosed x hx l hl
+        refine List.mem_filter.mpr ⟨hlm l hcl.1 hcl.2, ?_⟩
+        simp only [Bool.and_eq_true, List.contains_eq_mem, decide_eq_true_eq]
+        exact ⟨hl, by rw [leaves_copy hc]; exact List.mem_map.mpr ⟨l, hl, rfl⟩⟩)
+      simpa using this
+    simp only [innerSimOf, Bool.or_eq_true]
+    left
+    rw [leaves_copy hc] at hcount ⊢
+    simp only [List.length_map, Nat.max_self, geFrac]
+    rw [if_neg (by omega)]
+    simp only [decide_eq_true_eq]
+    calc P.hi.1 * (S.leaves x).length ≤ P.hi.2 * (S.leaves x).length := Nat.mul_le_mul_right _ hhi
+      _ ≤ P.hi.2 * _ := Nat.mul_le_mul_left _ hcount
+      _ = _ := Nat.mul_comm _ _
+
+/-- twins end in Keep -/
+theorem isUpdateOf_twin {P : Params} {S T : Tree} {φ : Id → Id} (hc : IsCopy S T φ) (x : Id) :
+    isUpdateOf P S T x (φ x) = false := by
+  simp [isUpdateOf, identical, hc.eqc, hc.nel]
+
+/-- twins whose parents are matched as twins get no Move -/
+theorem movesOf_twin {S T : Tree} {φ : Id → Id} (hc : IsCopy S T φ) (hw : TreeWF S) (m : List (Id × Id)) (u : List Id)
+    (x : Id) (hm : ∀ p ∈ m, p.2 = φ p.1) (hall : ∀ y ∈ S.index, (y, φ y) ∈ m) (hx : x ∈ S.index) :
+    movesOf S T m u x (φ x) = [] := by
+  have hid : identical S T x (φ x) = true := by simp [identical, hc.eqc]
+  simp only [movesOf, hid, Bool.or_true, if_true]
+  have : parentMoved S T m x (φ x) = false := by
+    simp only [parentMoved, hc.parent]
+    rcases hw.parent x hx with ⟨p, hp, hpi⟩ | ⟨hp, _⟩
+    · rw [hp]
+      simp [lookup_twin hm (hall p hpi.1)]
+    · rw [hp]; rfl
+  simp [this]
+
+/-! ### delta empty ⇒ equal: every kept pair is `==` -/
+
+/-- structural congruence of `Expr.__eq__` (validated by the harness on every shipped pair of nodes): same class, equal
+    non-expression leaves, equal Identifier children, equal child layout and pairwise `==` expression children make two
+    nodes `==` -/
+structure EqcCongr (S T : Tree) : Prop where
+  congr : ∀ s t, S.cls s = T.cls t → S.nel s = T.nel t → S.idk s = T.idk t → S.lay s = T.lay t →
+    Aligned (fun a b => S.eqc a == T.eqc b) (S.exprArgs s) (T.exprArgs t) → S.eqc s = T.eqc t
+
+theorem lookup_mem {m : List (Id × Id)} {k v : Id} (h : lookup m k = some v) : (k, v) ∈ m := by
+  unfold lookup at h
+  cases hf : m.find? (fun p => p.1 == k) with
+  | none => simp [hf] at h
+  | some q =>
+    have h1 : q ∈ m := List.mem_of_find?_eq_some hf
+    have h2 : q.1 = k := by simpa using List.find?_some hf
+    simp [hf] at h
+    obtain ⟨a, b⟩ := q
+    simp only at h2 h; subst h2; subst h; exact h1
+
+theorem lookup_of_mem {m : List (Id × Id)} (hN : (fsts m).Nodup) {k v : Id} (h : (k, v) ∈ m) : lookup m k = some v := by
+  cases hl : lookup m k with
+  | none =>
+    unfold lookup at hl
+    cases hf : m.find? (fun p => p.1 == k) with
+    | none =>
+      have := List.find?_eq_none.mp hf (k, v) h
+      simp at this
+    | some q => simp [hf] at hl
+  | some v' =>
+    have h' := lookup_mem hl
+    have := nodup_map_inj (fun x : Id × Id => x.1) m (by simpa [fsts] using hN) (k, v') (k, v) h' h rfl
+    simp at this; simp [this]
+
+theorem Aligned.exists_right {eq l l'} (h : Aligned eq l l') {a : Id} (ha : a ∈ l) : ∃ b ∈ l', eq a b = true := by
+  induction h with
+  | nil => simp at ha
+  | cons hab _ ih =>
+    simp only [List.mem_cons] at ha
+    rcases ha with rfl | ha
+    · exact ⟨_, by simp, hab⟩
+    · obtain ⟨b, hb, he⟩ := ih ha
+      exact ⟨b, by simp [hb], he⟩
+
+theorem Aligned.imp_mem {eq eq' : Id → Id → Bool} {l l'} (h : Aligned eq l l')
+    (himp : ∀ a b, a ∈ l → b ∈ l' → eq a b = true → eq' a b = true) : Aligned eq' l l' := by
+  induction h with
+  | nil => exact Aligned.nil
+  | cons hab _ ih =>
+    refine Aligned.cons (himp _ _ (by simp) (by simp) hab) (ih ?_)
+    intro a b ha hb he
+    exact himp a b (by simp [ha]) (by simp [hb]) he
+
+/-- **the core of `delta_empty_imp_equal`**: a total, injective matching in which every pair has equal class,
+    non-expression leaves, layout, is `==` when updatable or else has equal Identifier children, and in which no pair
+    produced a Move, pairs only `==` nodes.  Induction along the target's BFS order (children come later): for the
+    first pair that is not `==`, absence of Moves forces the two child lists to correspond one-to-one in order
+    (`lcs_is_common_subseq`, no target child left over because its partner would have changed parent), the children are
+    `==` by induction, so congruence makes the pair `==`. -/
+theorem kept_pairs_identical (S T : Tree) (m : List (Id × Id)) (hwS : TreeWF S) (hwT : TreeWF T)
+    (hm1 : (fsts m).Nodup) (hm2 : (snds m).Nodup)
+    (hidx : ∀ p ∈ m, p.1 ∈ S.index ∧ p.2 ∈ T.index)
+    (hsurjT : ∀ y ∈ T.index, y ∈ snds m)
+    (hcls : ∀ p ∈ m, S.cls p.1 = T.cls p.2)
+    (hnel : ∀ p ∈ m, S.nel p.1 = T.nel p.2)
+    (hupd : ∀ p ∈ m, S.updatable p.1 = true → S.eqc p.1 = T.eqc p.2)
+    (hidk : ∀ p ∈ m, S.eqc p.1 = T.eqc p.2 ∨ S.idk p.1 = T.idk p.2)
+    (hlay : ∀ p ∈ m, S.lay p.1 = T.lay p.2)
+    (hmov : ∀ p ∈ m, movesOf S T m [] p.1 p.2 = [])
+    (hcg : EqcCongr S T) :
+    ∀ p ∈ m, S.eqc p.1 = T.eqc p.2 := by
+  have main : ∀ n, ∀ p ∈ m, T.bfs.length - T.bfs.idxOf p.2 ≤ n → S.eqc p.1 = T.eqc p.2 := by
+    intro n
+    induction n with
+    | zero =>
+      intro p hp hle
+      have hin : p.2 ∈ T.bfs := (List.mem_filter.mp (hidx p hp).2).1
+      have := List.idxOf_lt_length_of_mem hin
+      omega
+    | succ n ih =>
+      intro p hp hle
+      obtain ⟨s, t⟩ := p
+      simp only at hle ⊢
+      by_cases hid : S.eqc s = T.eqc t
+      · exact hid
+      · exfalso
+        have hsI := (hidx _ hp).1
+        have htI := (hidx _ hp).2
+        simp only at hsI htI
+        have hnu : S.updatable s = false := by
+          cases hu : S.updatable s with
+          | false => rfl
+          | true => exact absurd (hupd _ hp hu) hid
+        have hnid : identical S T s t = false := by simp [identical, hid]
+        -- no Move: every source child is in the LCS
+        have hme : moveEdits S T m [] s t = [] := by
+          have := hmov _ hp
+          simpa [movesOf, hnu, hnid] using this
+        let eqm : Id → Id → Bool := fun l r => lookup m l == some r
+        have hall : ∀ a ∈ S.exprArgs s, a ∈ lcs eqm (S.exprArgs s) (T.exprArgs t) := by
+          intro a ha
+          by_cases hin : a ∈ lcs eqm (S.exprArgs s) (T.exprArgs t)
+          · exact hin
+          · have := (move_iff_not_in_lcs S T m [] s t a (lookup m a)).mpr ⟨ha, hin, by simp, rfl⟩
+            rw [hme] at this; simp at this
+        obtain ⟨hsub, ys', hys, hal⟩ := lcs_is_common_subseq eqm (S.exprArgs s) (T.exprArgs t)
+        have hlcs : lcs eqm (S.exprArgs s) (T.exprArgs t) = S.exprArgs s :=
+          hsub.eq_of_length_le (nodup_subset_length (hwS.kidsNodup s hsI) hall)
+        rw [hlcs] at hal
+        -- children of t have a smaller measure
+        have hkid : ∀ c' ∈ T.exprArgs t, ∀ c, (c, c') ∈ m → S.eqc c = T.eqc c' := by
+          intro c' hc' c hcm
+          have hk := hwT.kids t htI c' hc'
+          have hlt := List.idxOf_lt_length_of_mem (List.mem_filter.mp hk.2.1).1
+          exact ih (c, c') hcm (by simp only; omega)
+        -- no target child is left over
+        have hys_all : ∀ c' ∈ T.exprArgs t, c' ∈ ys' := by
+          intro c' hc'
+          have hk := hwT.kids t htI c' hc'
+          obtain ⟨q, hq, hq2⟩ := List.mem_map.mp (hsurjT c' hk.2.1)
+          obtain ⟨c, c''⟩ := q
+          simp only at hq2; subst hq2
+          have hcid := hkid _ hc' c hq
+          have hcI := (hidx _ hq).1
+          simp only at hcI
+          have hmv := hmov _ hq
+          have hidc : identical S T c c'' = true := by simp [identical, hcid]
+          simp only [movesOf, hidc, Bool.or_true, if_true] at hmv
+          have hpm : parentMoved S T m c c'' = false := by
+            cases hpmv : parentMoved S T m c c'' with
+            | false => rfl
+            | true => simp [hpmv] at hmv
+          simp only [parentMoved, hk.1] at hpm
+          cases hps : S.parent c with
+          | none => simp [hps] at hpm
+          | some ps =>
+            simp only [hps, bne_eq_false_iff_eq] at hpm
+            have hpt : (ps, t) ∈ m := lookup_mem hpm
+            have hps_eq : ps = s := by
+              have := nodup_map_inj (fun x : Id × Id => x.2) m (by simpa [snds] using hm2) (ps, t) (s, t) hpt hp rfl
+              simpa using this
+            subst hps_eq
+            have hca : c ∈ S.exprArgs ps := by
+              rcases hwS.parent c hcI with ⟨p', hp', _, hmem⟩ | ⟨hnone, _⟩
+              · rw [hps] at hp'; cases hp'; exact hmem
+              · rw [hps] at hnone; cases hnone
+            obtain ⟨b, hb, hbe⟩ := hal.exists_right hca
+            have : lookup m c = some b := by simpa [eqm] using hbe
+            rw [lookup_of_mem hm1 hq] at this
+            cases this
+            exact hb
+        have hyeq : ys' = T.exprArgs t :=
+          hys.eq_of_length_le (nodup_subset_length (hwT.kidsNodup t htI) hys_all)
+        rw [hyeq] at hal
+        have hal' : Aligned (fun a b => S.eqc a == T.eqc b) (S.exprArgs s) (T.exprArgs t) := by
+          refine hal.imp_mem ?_
+          intro a b _ hb he
+          have hab : (a, b) ∈ m := lookup_mem (by simpa [eqm] using he)
+          simpa using hkid b hb a hab
+        have hidk' : S.idk s = T.idk t := by
+          rcases hidk _ hp with h | h
+          · exact absurd h hid
+          · exact h
+        exact hid (hcg.congr s t (hcls _ hp) (hnel _ hp) hidk' (hlay _ hp) hal')
+  intro p hp
+  exact main _ p hp (Nat.le_refl _)
+
+/-! ### the `diff()` wrapper -/
+namespace Wrapper
+
+def Consistent (w : Walk) : Prop :=
+  ∀ (k : Nat) (n : WNode), w[k]? = some n → n.ptr = n.pp.bind (fun j => (w[j]?).map (·.obj))
+
+def ValidPos (w : Walk) : Prop := ∀ (k : Nat) (n : WNode) (j : Nat), w[k]? = some n → n.pp = some j → j < w.length
+
+theorem copyFrom_getElem? (fresh : Nat → Id) (i : Nat) (w : Walk) (k : Nat) :
+    (copyFrom fresh i w)[k]? = (w[k]?).map (fun n => ⟨fresh (i + k), n.pp, n.pp.map fresh⟩) := by
+  induction w generalizing i k with
+  | nil => simp [copyFrom]
+  | cons n rest ih =>
+    cases k with
+    | zero => simp [copyFrom]
+    | succ k =>
+      simp only [copyFrom, List.getElem?_cons_succ, ih]
+      have : i + 1 + k = i + (k + 1) := by omega
+      rw [this]
+
+theorem copyFrom_objs (fresh : Nat → Id) (i : Nat) (w : Walk) :
+    objs (copyFrom fresh i w) = (List.range' i w.length).map fresh := by
+  induction w generalizing i with
+  | nil => simp [copyFrom, objs]
+  | cons n rest ih =>
+    have := ih (i + 1)
+    simp only [objs] at this
+    simp [copyFrom, objs, List.range'_succ, this]
+
+theorem mem_copy_objs {fresh : Nat → Id} {w : Walk} {y : Id} (h : y ∈ objs (copyWalk fresh w)) : ∃ i, y = fresh i := by
+  rw [copyWalk, copyFrom_objs] at h
+  obtain ⟨i, _, rfl⟩ := List.mem_map.mp h
+  exact ⟨i, rfl⟩
+
+theorem copy_objs_nodup (fresh : Nat → Id) (inj : ∀ i j, fresh i = fresh j → i = j) (w : Walk) :
+    (objs (copyWalk fresh w)).Nodup := by
+  rw [copyWalk, copyFrom_objs, List.Nodup, List.pairwise_map]
+  exact (List.nodup_range' (s := 0) (n := w.length)).imp (fun hne he => hne (inj _ _ he))
+
+/-- a copy is parent-consistent by construction -/
+theorem copyWalk_consistent (fresh : Nat → Id) (w : Walk) (hv : ValidPos w) : Consistent (copyWalk fresh w) := by
+  unfold Consistent
+  intro k n' h
+  rw [copyWalk, copyFrom_getElem?] at h
+  cases hw : w[k]? with
+  | none => simp [hw] at h
+  | some n =>
+    simp only [hw, Option.map_some, Option.some.injEq] at h
+    subst h
+    simp only
+    cases hp : n.pp with
+    | none => rfl
+    | some j =>
+      have hj := hv k n j hw hp
+      simp only [Option.map_some, Option.bind_some, copyWalk, copyFrom_getElem?]
+      have : w[j]? = some w[j] := List.getElem?_eq_getElem hj
+      simp [this]
+
+/-- what the distiller sees under today's policy -/
+def seenToday (sw tw : Walk) (fs ft : Nat → Id) : List Id :=
+  objs (if needCopy sw tw then copyWalk fs sw else sw) ++ objs (if needCopy sw tw then copyWalk ft tw else tw)
+
+theorem hashAfter_today (sw tw : Walk) (fs ft : Nat → Id) (hasM : Bool) (touched hash0 : Id → Bool) (x : Id) :
+    (runDiff today sw tw fs ft hasM touched hash0).hashAfter x =
+      if (!(needCopy sw tw && hasM) && (objs sw ++ objs tw).contains x) = true then false
+      else (hash0 x ||
+        (if (needCopy sw tw && hasM) = true then seenToday sw tw fs ft else objs sw ++ objs tw).contains x ||
+        (touched x && (seenToday sw tw fs ft).contains x)) := rfl
+
+theorem seen_today (sw tw : Walk) (fs ft : Nat → Id) (hasM : Bool) (touched hash0 : Id → Bool) :
+    objs (runDiff today sw tw fs ft hasM touched hash0).seenS ++ objs (runDiff today sw tw fs ft hasM touched hash0).seenT
+      = seenToday sw tw fs ft := rfl
+
+theorem input_not_seen_when_copied (sw tw : Walk) (fs ft : Nat → Id)
+    (hfs : ∀ i, fs i ∉ objs sw ++ objs tw) (hft : ∀ i, ft i ∉ objs sw ++ objs tw)
+    (hc : needCopy sw tw = true) (x : Id) (hx : x ∈ objs sw ++ objs tw) : x ∉ seenToday sw tw fs ft := by
+  simp only [seenToday, hc, if_true, List.mem_append, not_or]
+  exact ⟨fun h => by obtain ⟨i, rfl⟩ := mem_copy_objs h; exact hfs i hx,
+         fun h => by obtain ⟨i, rfl⟩ := mem_copy_objs h; exact hft i hx⟩
+
+/-- **`diff_leaves_inputs_untouched`** (today's `diff()`, both branches): when the copies were hashed (`copy and
+    matchings`) no input node's `_hash` changes at all; otherwise every input node ends with `_hash = None` — in
+    particular inputs that came in without cached hashes leave without them.  Objects that are neither inputs nor seen
+    by the distiller are never touched.  Holds whatever hashes the distiller itself computes (`touched`). -/
+theorem diff_leaves_inputs_untouched (sw tw : Walk) (fs ft : Nat → Id) (hasM : Bool) (touched hash0 : Id → Bool)
+    (hfs : ∀ i, fs i ∉ objs sw ++ objs tw) (hft : ∀ i, ft i ∉ objs sw ++ objs tw) :
+    (∀ x ∈ objs sw ++ objs tw,
+      (runDiff today sw tw fs ft hasM touched hash0).hashAfter x =
+        if (needCopy sw tw && hasM) = true then hash0 x else false) ∧
+    (∀ y, y ∉ objs sw ++ objs tw →
+      y ∉ objs (runDiff today sw tw fs ft hasM touched hash0).seenS ++ objs (runDiff today sw tw fs ft hasM touched hash0).seenT →
+      (runDiff today sw tw fs ft hasM touched hash0).hashAfter y = hash0 y) := by
+  constructor
+  · intro x hx
+    rw [hashAfter_today]
+    by_cases hc : (needCopy sw tw && hasM) = true
+    · have hcopy : needCopy sw tw = true := by
+        simp only [Bool.and_eq_true] at hc; exact hc.1
+      have hns := input_not_seen_when_copied sw tw fs ft hfs hft hcopy x hx
+      simp [hc, hns]
+    · simp only [Bool.not_eq_true] at hc
+      rcases List.mem_append.mp hx with h | h <;> simp [hc, h]
+  · intro y hy1 hy2
+    rw [seen_today] at hy2
+    rw [hashAfter_today]
+    have h1 := hy1
+    simp only [List.mem_append, not_or] at h1
+    by_cases hc : (needCopy sw tw && hasM) = true
+    · simp [hc, hy2]
+    · simp only [Bool.not_eq_true] at hc
+      simp [hc, h1.1, h1.2, hy2]
+
+/-- **`diff_copies_when_shared`** (today's `diff()`): the two trees handed to the ChangeDistiller never share an object
+    and never contain an object twice; and every object's `.parent` pointer lies inside the tree it is seen in
+    (copies by construction, uncopied inputs because unshared inputs are assumed well-formed). -/
+theorem diff_copies_when_shared (sw tw : Walk) (fs ft : Nat → Id) (hasM : Bool) (touched hash0 : Id → Bool)
+    (hfsInj : ∀ i j, fs i = fs j → i = j) (hftInj : ∀ i j, ft i = ft j → i = j) (hdisj : ∀ i j, fs i ≠ ft j) :
+    (objs (runDiff today sw tw fs ft hasM touched hash0).seenS ++
+      objs (runDiff today sw tw fs ft hasM touched hash0).seenT).Nodup ∧
+    (ValidPos sw → ValidPos tw → (needCopy sw tw = false → Consistent sw ∧ Consistent tw) →
+      Consistent (runDiff today sw tw fs ft hasM touched hash0).seenS ∧
+      Consistent (runDiff today sw tw fs ft hasM touched hash0).seenT) := by
+  cases hc : needCopy sw tw with
+  | true =>
+    simp only [runDiff, today, applyRule, hc, if_true]
+    constructor
+    · rw [List.nodup_append]
+      refine ⟨copy_objs_nodup fs hfsInj sw, copy_objs_nodup ft hftInj tw, ?_⟩
+      intro a ha b hb hab
+      obtain ⟨i, rfl⟩ := mem_copy_objs ha
+      obtain ⟨j, rfl⟩ := mem_copy_objs hb
+      exact hdisj i j hab
+    · intro hv1 hv2 _
+      exact ⟨copyWalk_consistent fs sw hv1, copyWalk_consistent ft tw hv2⟩
+  | false =>
+    simp only [runDiff, today, applyRule, hc]
+    simp only [needCopy, selfDup, Bool.or_eq_false_iff, Bool.not_eq_false', decide_eq_true_eq, List.any_eq_false,
+      List.contains_eq_mem, decide_eq_true_eq] at hc
+    constructor
+    · rw [List.nodup_append]
+      refine ⟨hc.1.1, hc.1.2, ?_⟩
+      intro a ha b hb hab
+      subst hab
+      exact hc.2 a ha hb
+    · intro _ _ h
+      exact h trivial
+
+end Wrapper
 
 end SqlglotModel.Diff
